@@ -12,6 +12,49 @@ import (
 func init() {
 	register("H_C14_Settle", H_C14_Settle)
 	register("H_C14_SetHooks", H_C14_SetHooks)
+	register("H_C14_TwoAuctions", H_C14_TwoAuctions)
+}
+
+// H_C14_TwoAuctions: a block in which two auctions of different statuses both move
+// coins (a vesting auction with a due instalment and a fixed-price auction reaching
+// its end time) executed twice; the second time every map range inside the module
+// iterates in an arbitrary order. The ordered transfers must coincide.
+func H_C14_TwoAuctions() {
+	now := nd.Time("now")
+	run := func() c14Result {
+		e := env.New(now)
+		setParams(e, "p.")
+		A := buildAuction(e, "a.", aSpec{id: 0, status: types.AuctionStatusVesting, auctioneer: 0, nBids: 0, nSched: 1, nEnd: 1, nUsers: 1, allowAll: true})
+		B := buildAuction(e, "b.", aSpec{id: 1, status: types.AuctionStatusStarted, auctioneer: 0, nBids: 1, nSched: 0, nEnd: 1, nUsers: 1, allowAll: true})
+		C := buildAuction(e, "c.", aSpec{id: 2, status: types.AuctionStatusStandBy, auctioneer: 0, nBids: 0, nSched: 0, nEnd: 1, nUsers: 1, allowAll: true, batch: true})
+		setAuctionSeq(e, 3)
+		nd.Assume(!A.queues[0].ReleaseTime.After(now))
+		nd.Assume(!B.base.EndTimes[0].After(now))
+		nd.Assume(!C.base.EndTimes[0].After(now)) // opens and settles in this block
+		e.ResetCalls()
+		err := e.K.BeginBlocker(e.Ctx)
+		return c14Result{e: e, err: err, calls: e.Calls(), st: B}
+	}
+	first := run()
+	reps := 1
+	if !nd.Symbolic() {
+		reps = nd.Param("nativeReps", 32)
+	}
+	nd.Option("permute-maps")
+	for r := 0; r < reps; r++ {
+		second := run()
+		nd.Assert("C14.two-auctions-same-result", (first.err == nil) == (second.err == nil))
+		nd.Assert("C14.two-auctions-same-number-of-transfers", len(first.calls) == len(second.calls))
+		if len(first.calls) == len(second.calls) {
+			for i := range first.calls {
+				a, b := first.calls[i], second.calls[i]
+				nd.Assert("C14.two-auctions-same-ordered-transfers", a.Kind == b.Kind && a.From == b.From && a.To == b.To && a.Denom == b.Denom && nd.And(a.Amount.Equal(b.Amount)))
+			}
+		}
+	}
+	if first.err == nil {
+		nd.Cover("three-auctions-processed")
+	}
 }
 
 // H_C14_SetHooks: the order in which hook listeners of several modules are
